@@ -897,6 +897,14 @@ func (r *vpRun) createScope(w *vpWorld, from int, ctx int) {
 		return
 	}
 	if err != nil {
+		// a scope whose creation failed was never handed out: whatever its initializers created must
+		// have been disposed already (C10 / C14 "a failed creation leaves nothing" / C15 "later disposed")
+		for _, b := range w.all {
+			if _, known := w.scopes[b.ScopeN]; !known && b.ScopeN > 0 && b.Life != Singleton &&
+				slotDisp(w.regs[b.Ctor-1].outs[b.Out].slot) && b.closes.Load() != 1 {
+				w.fail("C10,C14,C15", "CreateScope failed but instance i%d created for the half-made scope s%d was closed %d times", b.Inst, b.ScopeN, b.closes.Load())
+			}
+		}
 		r.emit(op, w.showErr(err)+w.flushEvents())
 		return
 	}
